@@ -970,6 +970,11 @@ def run(ctx):
     # all finished, the server is back at its baseline
     ctx.require('concurrent_end_schedules', 50)
     concurrent_ends(ctx, (ctx.budget or 45) * 0.15)
+    # threaded server: an emit with a callback in one thread while another
+    # handles the recipient's departure (statement-level schedules)
+    ctx.require('emit_callback_race_schedules', 50)
+    from checks import c11_sched
+    c11_sched.run_part(ctx, (ctx.budget or 45) * 0.12)
     k = 0
     while not ctx.out_of_time() and not ctx.too_many_violations():
         run_case(ctx, k)
@@ -1017,6 +1022,9 @@ def concurrent_ends(ctx, share):
 
 
 def replay(ctx, w):
+    if w['witness'].get('part') == 'emit_callback_race':
+        from checks import c11_sched
+        return c11_sched.replay(ctx, w)
     if w['witness'].get('part') == 'self_race':
         from checks import c03_sched
         return c03_sched.replay(ctx, w)
